@@ -184,6 +184,78 @@ theorem implArgsOK_of_call {spec : Spec} {args : List Value} (hwf : ∀ a ∈ ar
     (blocksUnknown_of_not_some hnb hpf hv)
   exact ⟨⟨wf_callArg (hwf v hvm), h1, h2, h4, fun hm => (h5 hm).1⟩, h3⟩
 
+/-- `C10.go_panic_iff` (restated here: lemma files cannot import `Props/`) -/
+theorem go_panic_iff' (spec : Spec) (tf : TypeFn) (impl : ImplFn) (args : List Value) :
+    (∃ why, (call spec tf impl args).1 = .panic why) ↔
+      ∃ rf pre, spec.refine = some rf ∧ (callUnrefined spec tf impl args).1 = .ok pre ∧ typed pre = true ∧
+        rf pre.unmark = none := by
+  rw [call_eq_finish]
+  obtain ⟨k, hk⟩ := callUnrefined_case spec tf impl args
+  have hnp := hk.no_panic
+  generalize callUnrefined spec tf impl args = o at hnp
+  obtain ⟨r, tr⟩ := o
+  cases r with
+  | err e => simp [finish_err]
+  | unmodelled => simp [finish_unmodelled]
+  | panic w => exact absurd rfl (hnp w)
+  | ok u =>
+    rw [finish_ok]
+    cases hr : spec.refine with
+    | none => simp
+    | some rf =>
+      by_cases ht : typed u = true
+      · rcases refineWith_cases rf u with ⟨hn, e⟩ | ⟨p, hp, e⟩
+        · simp [ht, e, hn]
+        · simp [ht, e, hp]
+      · simp [ht]
+
+/-- **Totality from obligations** (stated in Props/C11.lean as `C11.call_total_of_obligations`). -/
+theorem call_total_of_obligations (nfc : String → Bool) (spec : Spec) (tf : TypeFn) (impl : ImplFn)
+    (htf : ∀ as w, TypeArgsOK nfc spec as → tf as ≠ .panic w)
+    (himpl : ∀ as rt w, ImplArgsOK nfc spec as → tf as = .ok rt → impl as rt ≠ .panic w)
+    (hconf : ∀ as rt v, ImplArgsOK nfc spec as → tf as = .ok rt → impl as rt = .ok v →
+      Ty.conformErrs rt v.ty = 0)
+    (href : ∀ rf, spec.refine = some rf →
+      (∀ as rt v, ImplArgsOK nfc spec as → tf as = .ok rt → impl as rt = .ok v → rf v.unmark ≠ none) ∧
+      (∀ as rt, TypeArgsOK nfc spec as → tf as = .ok rt → rt.isDyn = false → rf (Value.unknown rt) ≠ none))
+    (args : List Value) (hargs : ∀ a ∈ args, a.WF nfc = true) :
+    (∀ w, (call spec tf impl args).1 ≠ .panic w) ∧
+    (∀ w, (call spec tf impl args).1 ≠ .err (.panicError w)) := by
+  have hmw : ∀ v ∈ args, v.v.markerWF = true := fun v hv => markerWF_of_WF (hargs v hv)
+  have hti := typeArgs_eq_implArgs spec args hmw
+  obtain ⟨k, o, ho, hk⟩ := callUnrefined_case' spec tf impl args
+  constructor
+  · intro w hw
+    obtain ⟨rf, pre, hr, hpre, hty, hn⟩ := (go_panic_iff' spec tf impl args).mp ⟨w, hw⟩
+    obtain ⟨h1, h2⟩ := href rf hr
+    rw [ho] at hpre
+    cases hk with
+    | dynShort k' u hc hat hwu =>
+      simp only [Out.ok.injEq] at hpre; subst hpre
+      rw [not_typed_of_unknown_dyn hwu] at hty; cases hty
+    | unkShort rt u hc hap ht hb hwu =>
+      simp only [Out.ok.injEq] at hpre; subst hpre
+      obtain ⟨a, b, c, _⟩ := withUnhandled_unknown hwu
+      rw [b] at hn
+      refine h2 _ rt (typeArgsOK_of_call hargs hc hap) ht ?_ hn
+      unfold typed at hty
+      rw [c, a] at hty
+      simpa using hty
+    | value rt v u hc hap ht hnb hi hcf hwu =>
+      simp only [Out.ok.injEq] at hpre; subst hpre
+      rw [hwu.2.1] at hn
+      exact h1 _ rt v (implArgsOK_of_call hargs hc hap hnb) (hti ▸ ht) hi hn
+    | _ => simp at hpre
+  · intro w
+    rw [call_eq_finish, Ne, finish_err_iff, ho]
+    cases hk with
+    | typePanic w' hc hap h => exact absurd h (htf _ w' (typeArgsOK_of_call hargs hc hap))
+    | implPanic rt w' hc hap ht hnb h =>
+      exact absurd h (himpl _ rt w' (implArgsOK_of_call hargs hc hap hnb) (hti ▸ ht))
+    | nonconforming rt v w' hc hap ht hnb hi hn =>
+      exact absurd (hconf _ rt v (implArgsOK_of_call hargs hc hap hnb) (hti ▸ ht) hi) hn
+    | _ => simp
+
 end Fn
 
 end CtyModel
